@@ -68,6 +68,8 @@ class MultiMapProxy(object):
         self.loader = loader
         self.list_apps = list_apps
         self._app_init_lock = Lock()
+        # the LRU is not thread-safe, not even for lookups (they update the order)
+        self._apps_lock = Lock()
         self.apps = LRU(app_cache_size)
         self.debug = debug
 
@@ -82,8 +84,9 @@ class MultiMapProxy(object):
 
         if not self.loader.app_available(app_name):
             # forget the app when its configuration was removed
-            if app_name in self.apps:
-                del self.apps[app_name]
+            with self._apps_lock:
+                if app_name in self.apps:
+                    del self.apps[app_name]
             return Response('not found', status=404)
 
         # safe instance/app name for authorization
@@ -110,7 +113,8 @@ class MultiMapProxy(object):
         """
         Return the (cached) project app.
         """
-        proj_app, timestamps = self.apps.get(proj_name, (None, None))
+        with self._apps_lock:
+            proj_app, timestamps = self.apps.get(proj_name, (None, None))
 
         if proj_app:
             if self.loader.needs_reload(proj_name, timestamps):
@@ -119,12 +123,12 @@ class MultiMapProxy(object):
 
         if not proj_app:
             with self._app_init_lock:
-                proj_app, timestamps = self.apps.get(proj_name, (None, None))
+                with self._apps_lock:
+                    proj_app, timestamps = self.apps.get(proj_name, (None, None))
                 if self.loader.needs_reload(proj_name, timestamps):
                     proj_app, timestamps = self.create_app(proj_name)
-                    self.apps[proj_name] = proj_app, timestamps
-                else:
-                    proj_app, timestamps = self.apps[proj_name]
+                    with self._apps_lock:
+                        self.apps[proj_name] = proj_app, timestamps
 
         return proj_app
 
